@@ -276,8 +276,9 @@ def insertStmt (thr : Nat) (t : Table) (rows : List Row) (mode : InsMode) : Tabl
       | .error e => (t, .err e)
       | .ok () => onDupLoop thr f t rows 0
 
-/-- `execute_bulk_transfer`: validate and insert row by row.  `skipInAppendMode = true` is the
-code before the repair (existing-row lookup skipped while the tracker is active). -/
+/-- `execute_bulk_transfer` before the repairs: validate and insert row by row (a failing row
+leaves the earlier ones inserted); `skipInAppendMode = true` additionally skips the existing-row
+lookup while the tracker is active. -/
 def bulkLoop (thr : Nat) (skipInAppendMode : Bool) : Table → List Row → List Row → Nat → Table × Out
   | t, _, [], n => (t, .ok n)
   | t, batch, r :: rs, n =>
@@ -291,12 +292,18 @@ def bulkLoop (thr : Nat) (skipInAppendMode : Bool) : Table → List Row → List
       | .error e => (t, .err e)
       | .ok () => bulkLoop thr skipInAppendMode (t.pushRow thr r) (batch ++ [r]) rs (n + 1)
 
-/-- The transfer path is taken only for a source table of the same column types whose columns
-feeding NOT NULL columns are themselves NOT NULL (`check_schema_compatibility`); other
-sources go through `insertStmt`.  Rows that could not come from such a source are `.other`. -/
+/-- `execute_bulk_transfer` (after the repair: phase A validates every source row against the
+destination and the earlier source rows, phase B inserts).  The transfer path is taken only for
+a source table of the same column types whose columns feeding NOT NULL columns are themselves
+NOT NULL (`check_schema_compatibility`); other sources go through `insertStmt`.  Rows that could
+not come from such a source are `.other`.  `bulkLoop` above is the row-by-row code before the
+repairs (kept for the theorems that document them). -/
 def bulkStmt (thr : Nat) (t : Table) (rows : List Row) : Table × Out :=
   if rows.any (fun r => r.length != t.ncols || !r.all coerceOk || !t.checkNotNull r) then (t, .err .other)
-  else bulkLoop thr false t [] rows 0
+  else
+    match t.validateInsertRows false [] rows with
+    | .error e => (t, .err e)
+    | .ok () => (rows.foldl (pushRow thr) t, .ok rows.length)
 
 /-! #### UPDATE -/
 
